@@ -300,12 +300,18 @@ def run_contract(sx):
 def run_face_counts(sx):
     n1 = 1 + sx.choice("nx1", 3)
     n2 = 1 + sx.choice("nx2", 3)
-    nm = sx.choice("nxm", 4)  # 0 = no mid sketch
+    mids = [sx.choice("nxm1", 4), sx.choice("nxm2", 4)]  # 0 = absent
     s1 = cb.Grid([0, 0, 0], [1, 1, 0], n1, 1)
     s2 = cb.Grid([0, 0, 1], [1, 1, 1], n2, 1)
-    sm = None if nm == 0 else cb.Grid([0, 0, 0.5], [1, 1, 0.5], nm, 1)
-    bad = n1 != n2 or (sm is not None and nm != n1)
-    return judge(sx, f"LoftedShape(sketches with {n1}/{nm or '-'}/{n2} faces)", "C20:face-counts",
+    ms = [cb.Grid([0, 0, 0.3 * (k + 1)], [1, 1, 0.3 * (k + 1)], nm, 1) for k, nm in enumerate(mids) if nm]
+    if not ms:
+        sm = None
+    elif len(ms) == 1 and mids[1] == 0:
+        sm = ms[0]            # a single sketch, not wrapped in a list
+    else:
+        sm = ms
+    bad = n1 != n2 or any(nm and nm != n1 for nm in mids)
+    return judge(sx, f"LoftedShape(sketches with {n1}/{mids}/{n2} faces)", "C20:face-counts",
                  lambda: cb.LoftedShape(s1, s2, sm), bad, not bad)
 
 
